@@ -5,4 +5,18 @@ CHECKS = {
   "text": "Every parser/serializer call on ~26k (quick) / ~520k (thorough) generated strings is executed in the ASan+UBSan+VERIFY build and compared with an independent SEC1 / x-only / compact / strict-DER format model; exhaustive over prefix byte x length x boundary coordinates and over one structural DER deviation, sampled beyond. Held-on-observed-executions, not a proof.",
   "note": "Trusted: the Python format models (ref/der.py, ref/ec.py), gcc sanitizers. Acceptance sets compared only on generated strings."},
 }
+CHECKS.update({
+ "C01": {
+  "technique": "runtime monitoring: sanitizer builds (2-7 configurations) + RFC 6979 / textbook-ECDSA reference oracle on constructed boundary triples",
+  "text": "Every sign / sign_recoverable / recover / verify / normalize call (~15k quick, ~400k thorough, several build configurations) is executed under ASan+UBSan+VERIFY and compared with an independent model; verification triples are built with the choose-s and choose-R constructions so that s = (n+-1)/2, r+n<p and r/s = 0 are actually reached. Held on the executions observed.",
+  "note": "Trusted: ref/ecdsa.py, ref/hashes.py (self-tested), gcc/clang sanitizers. Not reached: valid r+p re-encodings, r = 0 from signing."},
+ "C02": {
+  "technique": "runtime monitoring: sanitizer builds + BIP-340 reference oracle; every message length 0..300, sampled to 1e5; constructed R=infinity / odd-y signatures",
+  "text": "sign32/sign_custom/verify records (~24k quick) under ASan+UBSan+VERIFY compared byte for byte with a BIP-340 model written from the BIP; all 512 bit flips of some signatures, sampled flips of the rest, out-of-range r/s, R = infinity and odd-y constructions, custom nonce callbacks.",
+  "note": "Trusted: ref/schnorr.py (checked against the BIP-340 vectors), sanitizers. s+n / r+p re-encodings of valid signatures are not constructible on the real curve."},
+ "C04": {
+  "technique": "runtime monitoring: sanitizer build + integer/point model over single operations and lock-step secret/public histories",
+  "text": "Key algebra records (~39k quick) incl. histories of mixed negate/add/mul/x-only/keypair tweaks applied to secret and public side in lock-step, combine with cancelling prefixes, sort/cmp up to 200 keys; each output compared with the integer / point model, failures judged through the API (seckey_verify, serializer refusal).",
+  "note": "Trusted: ref/ec.py group law (self-tested against a plain affine ladder)."},
+})
 NOT_APPLICABLE = {}
